@@ -128,7 +128,7 @@ FUNCS = ['trust_region.trsbox', 'trust_region.alt_trust_step', 'trust_region.d_w
 def harnesses(tier, seed):
     hs = []
     q = 20000 if tier == 'quick' else 120000
-    nra = lambda: core.Cfg(fork_queries=True, qtimeout_ms=q, portfolio=(tier != 'quick'), portfolio_s=120, portfolio_logic='QF_NRA', ite_minmax=True)
+    nra = lambda: core.Cfg(fork_queries=True, qtimeout_ms=q, portfolio=True, portfolio_s=(45 if tier == 'quick' else 240), portfolio_logic='QF_NRA', ite_minmax=True)
     hs.append(Harness("trsbox[n=1,all-symbolic]", 'dfverif.checks.c12', 'body_n1', params={}, cfg=nra(), functions=FUNCS,
                       bounds="n=1; xopt, g, H, box, Delta all symbolic",
                       assumptions=["|g|^2 > 1e-18 or g = 0, Delta >= 1e-9, |g| <= 1e9 (below the code's absolute cut-offs gredsq <= 1e-18 / stplen <= 1e-30 the zero step is returned by design)",
